@@ -13,6 +13,8 @@ pub struct Gap {
     pub blanks: String,
     /// touches a comment / directive: kept byte-identical by re-layouts
     pub fixed: bool,
+    /// blanks at the end of the previous line, before the first line break (only when nl > 0)
+    pub trail: String,
 }
 
 /// May the two lexemes be written without any blank between them? Decided by re-scanning the
@@ -67,33 +69,33 @@ pub fn gen_layout(p: &Prog, t: &mut Tape, style: Style) -> Vec<Gap> {
         let depth = cur.map_or(0, |x| x.depth as usize);
         let mut g = match (i, cur) {
             (0, _) => match style {
-                Style::OneSpace | Style::Compact => Gap { nl: 0, blanks: String::new(), fixed },
+                Style::OneSpace | Style::Compact => Gap { nl: 0, blanks: String::new(), fixed, trail: String::new() },
                 _ => {
                     if t.chance(1, 6) {
-                        Gap { nl: t.below(3) as u8, blanks: t.pick_str(INDENT_BLANKS).to_string(), fixed }
+                        Gap { nl: t.below(3) as u8, blanks: t.pick_str(INDENT_BLANKS).to_string(), fixed, trail: String::new() }
                     } else {
-                        Gap { nl: 0, blanks: String::new(), fixed }
+                        Gap { nl: 0, blanks: String::new(), fixed, trail: String::new() }
                     }
                 }
             },
             (_, None) => match style {
-                Style::OneSpace => Gap { nl: 0, blanks: String::new(), fixed },
+                Style::OneSpace => Gap { nl: 0, blanks: String::new(), fixed, trail: String::new() },
                 _ => match t.below(5) {
-                    0 => Gap { nl: 0, blanks: String::new(), fixed },
-                    1 => Gap { nl: 2, blanks: String::new(), fixed },
-                    2 => Gap { nl: 1, blanks: "  ".to_string(), fixed },
-                    _ => Gap { nl: 1, blanks: String::new(), fixed },
+                    0 => Gap { nl: 0, blanks: String::new(), fixed, trail: String::new() },
+                    1 => Gap { nl: 2, blanks: String::new(), fixed, trail: String::new() },
+                    2 => Gap { nl: 1, blanks: "  ".to_string(), fixed, trail: "  ".to_string() },
+                    _ => Gap { nl: 1, blanks: String::new(), fixed, trail: String::new() },
                 },
             },
             (_, Some(b)) => {
                 let a = prev.unwrap();
                 match style {
-                    Style::OneSpace => Gap { nl: 0, blanks: " ".to_string(), fixed },
+                    Style::OneSpace => Gap { nl: 0, blanks: " ".to_string(), fixed, trail: String::new() },
                     Style::Compact => {
                         if touch_ok {
-                            Gap { nl: 0, blanks: String::new(), fixed }
+                            Gap { nl: 0, blanks: String::new(), fixed, trail: String::new() }
                         } else {
-                            Gap { nl: 0, blanks: " ".to_string(), fixed }
+                            Gap { nl: 0, blanks: " ".to_string(), fixed, trail: String::new() }
                         }
                     }
                     Style::Pretty => {
@@ -104,26 +106,27 @@ pub fn gen_layout(p: &Prog, t: &mut Tape, style: Style) -> Vec<Gap> {
                             } else {
                                 "  ".repeat(depth)
                             };
-                            Gap { nl, blanks: ind, fixed }
+                            Gap { nl, blanks: ind, fixed, trail: if t.chance(1, 12) { t.pick_str(&[" ", "   ", "\t", " \t"]).to_string() } else { String::new() } }
                         } else if t.chance(1, 24) {
                             // an extra line break in the middle of a statement
-                            Gap { nl: 1, blanks: "  ".repeat(depth + 2), fixed }
+                            Gap { nl: 1, blanks: "  ".repeat(depth + 2), fixed, trail: String::new() }
                         } else if touch_ok && tightish(a, b) {
-                            Gap { nl: 0, blanks: String::new(), fixed }
+                            Gap { nl: 0, blanks: String::new(), fixed, trail: String::new() }
                         } else {
-                            Gap { nl: 0, blanks: " ".to_string(), fixed }
+                            Gap { nl: 0, blanks: " ".to_string(), fixed, trail: String::new() }
                         }
                     }
                     Style::Wild => match t.below(10) {
-                        0 | 1 if touch_ok => Gap { nl: 0, blanks: String::new(), fixed },
-                        0..=4 => Gap { nl: 0, blanks: t.pick_str(MID_BLANKS).to_string(), fixed },
-                        5..=7 => Gap { nl: 1, blanks: t.pick_str(INDENT_BLANKS).to_string(), fixed },
+                        0 | 1 if touch_ok => Gap { nl: 0, blanks: String::new(), fixed, trail: String::new() },
+                        0..=4 => Gap { nl: 0, blanks: t.pick_str(MID_BLANKS).to_string(), fixed, trail: String::new() },
+                        5..=7 => Gap { nl: 1, blanks: t.pick_str(INDENT_BLANKS).to_string(), fixed, trail: if t.chance(1, 4) { t.pick_str(&[" ", "  ", "\t"]).to_string() } else { String::new() } },
                         8 if line_start => Gap {
                             nl: 2 + t.below(3) as u8,
                             blanks: t.pick_str(INDENT_BLANKS).to_string(),
                             fixed,
+                            trail: if t.chance(1, 4) { "  ".to_string() } else { String::new() },
                         },
-                        _ => Gap { nl: 0, blanks: " ".to_string(), fixed },
+                        _ => Gap { nl: 0, blanks: " ".to_string(), fixed, trail: String::new() },
                     },
                 }
             }
@@ -131,11 +134,15 @@ pub fn gen_layout(p: &Prog, t: &mut Tape, style: Style) -> Vec<Gap> {
         if let Some(fg) = cur.and_then(|x| x.fixed_gap.as_ref()) {
             let nl = fg.matches('\n').count() as u8;
             let blanks = fg.rsplit('\n').next().unwrap_or("").to_string();
-            g = Gap { nl, blanks, fixed: true };
+            g = Gap { nl, blanks, fixed: true, trail: String::new() };
         }
         if must_nl && g.nl == 0 {
             g.nl = 1;
             g.blanks = "  ".repeat(depth);
+        }
+        if must_nl || g.nl == 0 {
+            // blanks after a line comment would belong to the comment
+            g.trail.clear();
         }
         if i > 0 && i < n && g.nl == 0 && g.blanks.is_empty() && !touch_ok {
             g.blanks = " ".to_string();
@@ -178,6 +185,9 @@ pub fn relayout(p: &Prog, gaps: &[Gap], t: &mut Tape) -> Vec<Gap> {
 pub fn render(p: &Prog, gaps: &[Gap]) -> String {
     let mut s = String::new();
     for (i, g) in gaps.iter().enumerate() {
+        if g.nl > 0 {
+            s.push_str(&g.trail);
+        }
         for _ in 0..g.nl {
             s.push('\n');
         }
@@ -216,7 +226,7 @@ pub enum CommentPolicy {
 const LINE_COMMENTS: &[&str] = &[
     "// comment", "//x", "//no space here", "/// doc comment", "///doc", "//", "// trailing   ",
     "//==============", "//------------------------", "// it's {a} (*b*) 'q'", "//\ttab", "// TODO: x := 1;",
-    "//************",
+    "//************", "///----------------", "///==========", "//   ", "///", "//\u{3000}x", "//- - - - - -", "//----------x",
 ];
 const BLOCK_COMMENTS: &[&str] = &["{c}", "{ comment }", "(* c *)", "(*c*)", "{}", "{ it's }", "(* { nested } *)"];
 const MULTI_COMMENTS: &[&str] = &["{ multi\n  line }", "(* a\n b\n c *)", "{\n}"];
